@@ -1,5 +1,6 @@
 import Proofs.LoadPerm
 import Proofs.LoadApiRun
+import Proofs.LoadClone
 import Gen.Sharing
 
 /-!
@@ -224,6 +225,40 @@ theorem api_equiv (ss : List Stmt) (order : List (String × List Val)) (g : ApiG
     rw [hb, rowsOf_loaded ss order g]
     exact inv.rows k
 
+/-- **clone_equiv**: load the schema and the INSERTs of the rows, then clone every loaded instance — in the order
+    of the rows, named by (kind, position in the class's storage) — into an empty metamodel with the same schema
+    (model `cloneBuild`: `getattr` of every attribute through the chain of referential properties that
+    `Association.formalize` installs, then `new` with the values read).  Under the guards of `api_equiv` nothing
+    is raised and the clone carries exactly the loader's links, same ordered partner lists in both directions.
+    (A dangling or null referential value reads `None` on the loaded instance; `readVal_spec` shows that this
+    never changes which pairs match.) -/
+theorem clone_equiv (ss : List Stmt) (order : List (String × List Val)) (g : ApiGuards ss order) :
+    (cloneBuild (ss ++ insertsOf order) (positions order)).2 = order.map (fun _ => Outcome.ok) ∧
+    (cloneBuild (ss ++ insertsOf order) (positions order)).1.assocs = (buildCore (ss ++ insertsOf order)).assocs := by
+  have hclone : cloneBuild (ss ++ insertsOf order) (positions order) = apiBuild ss (readOrder ss order) := by
+    unfold cloneBuild apiBuild positions readOrder
+    rw [schemaModel_append_inserts]
+    exact cloneRun_eq ss order g order [] _ rfl
+  have g' := apiGuards_readOrder ss order g
+  obtain ⟨m', hrun, inv⟩ := apiRun_spec ss (readOrder ss order) g' (readOrder ss order) [] (schemaModel ss) rfl
+    (apiInv_init ss)
+  have hb : apiBuild ss (readOrder ss order) = (m', (readOrder ss order).map (fun _ => Outcome.ok)) := hrun
+  rw [hclone, hb]
+  refine ⟨?_, ?_⟩
+  · have hlen : (readOrder ss order).length = order.length := by
+      have := congrArg List.length (relabelFrom_map_fst (readArgs ss order) order [])
+      simpa [readOrder] using this
+    simp only
+    rw [List.map_const', List.map_const', hlen]
+  · simp only
+    rw [inv.assocs]
+    have := loaded_assocs ss order g
+    unfold loaded at this
+    rw [this]
+    apply List.map_congr_left
+    intro a ha
+    rw [nestedJoin_readOrder ss order g a ha]
+
 /-- a sufficient condition for the guard `resolves`: relationship numbers are not reused and both ends of
     every association carry the same phrase (e.g. none) -/
 theorem resolves_of_plain (as : List AssocStmt) (hrel : (as.map (·.rel)).Nodup)
@@ -351,23 +386,13 @@ example : ApiGuards exSchema exOrder2 := by
   · rw [hA]; decide
   · rw [hA]; decide
 
+example : positions exOrder = [("B", 0), ("B", 1), ("A", 0), ("A", 1), ("A", 2)] := by decide
+example : (cloneBuild (exSchema ++ insertsOf exOrder) (positions exOrder)).2 = exOrder.map (fun _ => Outcome.ok) := by decide
+/-- the dangling reference of the third A row reads `None` on the loaded instance, the matching one its value -/
+example : readArgs exSchema exOrder "A" 2 = [.int 3, .none, .none] ∧ readArgs exSchema exOrder "A" 0 = [.int 1, .id 7, .str "n"] := by
+  decide
+
 example : exStmts.Perm exStmts.reverse := (List.reverse_perm _).symm
 example : Loader.inputs [] [exStmts.take 3, [], exStmts.drop 3] = exStmts := by decide
-
-/-
-  NOT PROVED (full statement; validated on every run instead: the model `cloneBuild` — attribute reads through the
-  chain of referential properties, then `new` — is executed against `MetaModel.clone` on every API case, and the
-  harness compares the cloned links with the nested-loop oracle under the same guards):
-
-  theorem clone_equiv (ss : List Stmt) (order : List (String × List Val)) (g : ApiGuards ss order) :
-      let positions := order.zipIdx.map (fun (o, n) => (o.1, ((order.take n).filter (·.1 = o.1)).length))
-      (cloneBuild (ss ++ insertsOf order) positions).2 = order.map (fun _ => Outcome.ok) ∧
-      (cloneBuild (ss ++ insertsOf order) positions).1.assocs = (buildCore (ss ++ insertsOf order)).assocs
-
-  Missing: the lemma that reading a loaded instance's referential attribute through the property chain
-  (`readRef`) returns the raw value whenever some association using the attribute is linked for the row, and
-  `None` otherwise — which makes `matchesB a (read row) t = matchesB a (raw row) t` for every association — and
-  the transfer of `ApiGuards` to the read rows; `api_equiv` then applies to the read rows.
--/
 
 end PyxProps.C03
